@@ -72,7 +72,7 @@ def ir_text(m):
 
 
 def log_text(st, evs, res):
-    gt = tc.GridTable()
+    gt = tc.PosTable()
     return (st, tuple(events.events_text(evs, gt)), repr(res) if st == "ok" else None)
 
 
